@@ -350,23 +350,32 @@ def arr_index(a, idxs):
     for kind, x in plan:
         if kind == "gather":
             r.facts += list(getattr(x, "facts", []))
-    # ghost provenance: rows gathered from `a` by an index array (used by "row r of the result is row idx[r] of a")
+    # ghost provenance (one level): r = a[idx0] along axis 0; chains are composed on demand by gather_path()
     if plan and plan[0][0] == "gather" and all(k == "shift" and not is_z3(x) and x == 0 for k, x in plan[1:]):
-        src, idx0 = a, plan[0][1]
-        if getattr(a, "gather", None) is not None:      # gather of a gather composes
-            base, inner = a.gather
-            src = base
-            idx_in = idx0
-            idx0 = Arr(idx_in.shape, lambda k, inner=inner, idx_in=idx_in: inner.at(idx_in.at(k)), "int")
-        r.gather = (src, idx0)
+        r.gather = (a, plan[0][1])
     if plan and plan[0][0] == "shift" and all(k == "shift" and not is_z3(x) and x == 0 for k, x in plan[1:]):
         lo0 = plan[0][1]
-        n0 = new_shape[0]
-        if getattr(a, "gather", None) is not None:
-            base, inner = a.gather
-            r.gather = (base, Arr([n0], lambda k, inner=inner, lo0=lo0: inner.at(lo0 + k), "int"))
-        else:
-            r.gather = (a, Arr([n0], lambda k, lo0=lo0: to_z3(lo0) + to_z3(k), "int"))
+        r.gather = (a, Arr([new_shape[0]], lambda k, lo0=lo0: to_z3(lo0) + to_z3(k), "int"))
+        r.slice_of = (a, lo0)
+    return r
+
+
+def gather_path(rows, base):
+    """index array g with rows == base[g] (composition of the recorded one-level gathers), or None."""
+    if rows is base:
+        n = base.shape[0]
+        return Arr([n], lambda k: to_z3(k), "int")
+    g = getattr(rows, "gather", None)
+    if g is None:
+        return None
+    src, idx = g
+    if src is base:
+        return idx
+    inner = gather_path(src, base)
+    if inner is None:
+        return None
+    r = Arr(idx.shape, lambda k, inner=inner, idx=idx: inner.at(idx.at(k)), "int")
+    r.facts = list(getattr(idx, "facts", [])) + list(getattr(inner, "facts", []))
     return r
 
 
